@@ -22,5 +22,11 @@ EchelonAlgOK ==
   cs.ph = 2 =>
     LET A == MatIdx(cs.d[1], cs.d[2], cs.a)  res == EchelonM4RI(A, cs.full, cs.k)
     IN EchelonOK(A, res.A, res.rank, IF cs.full THEN 1 ELSE 0)
+\* completing ANY row echelon form (here: every input that happens to be one, and the non-reduced output of the elimination)
+TopAlgOK ==
+  cs.ph = 2 =>
+    LET A == MatIdx(cs.d[1], cs.d[2], cs.a)  E == EchelonM4RI(A, FALSE, cs.k).A IN
+    /\ IsREF(A) => Eq(TopEchelonM4RI(A, cs.k).A, RREF(A))
+    /\ IsREF(E) /\ Eq(TopEchelonM4RI(E, cs.k).A, RREF(A))
 SplitOK == cs.ph = 0 => \A k \in 1 .. 8 : \A kbar \in 1 .. 6 * k : SumSeq(SplitSizes(kbar, NTab(kbar, k))) = kbar /\ \A t \in 1 .. NTab(kbar, k) : SplitSizes(kbar, NTab(kbar, k))[t] <= k
 =============================================================================
